@@ -15,3 +15,5 @@ def run_deductive(rep):
     except ImportError:
         pass
     verify.verify_many(rep, items)
+    from ..static import frames
+    frames.report(rep, classes=["ExponentiatedGradient", "InterpolatedThresholder", "ThresholdOptimizer"], conditions=("F5", "F6"))      # repeating a prediction repeats the pmf: no private state
